@@ -142,7 +142,7 @@ WriteScalar(fmt, x) ==
     [] x.k = "float" -> Tok("plain", IF fmt = "yaml" THEN YamlFloatText(x.v) ELSE JsonFloatText(x.v))
     [] x.k = "bool"  -> Tok("plain", x.v)                                                         \* true / false in both
     [] x.k = "null"  -> Tok("plain", <<"n", "u", "l", "l">>)
-    [] OTHER         -> Tok("unrepresentable", << >>)                                             \* enum member, tuple ...: not a tree
+    [] OTHER         -> Tok("unrepresentable", << >>)                                             \* an Enum member, a set ...: RepresenterError / TypeError
 RECURSIVE WriteDoc(_, _)
 WriteDoc(fmt, x) ==
   IF x.k \in {"list", "tuple"} THEN ListV([i \in 1..Len(x.v) |-> WriteDoc(fmt, x.v[i])])      \* both dumpers write a tuple as a list
@@ -164,7 +164,10 @@ ReadDoc(d) ==
   ELSE IF d.k = "dict" THEN LET ks == [i \in 1..Len(d.v) |-> IF TokStyle(d.v[i][1]) = "json" /\ ReadJsonKey(TokText(d.v[i][1])).k = "error"
                                                              THEN ErrV("json-key") ELSE ReadScalar(d.v[i][1])]
                                 xs == [i \in 1..Len(d.v) |-> ReadDoc(d.v[i][2])]
-                            IN Lift(ks \o xs, DictV([i \in 1..Len(d.v) |-> <<ks[i], xs[i]>>]))
+                            IN \* two keys that were both read as floats may be the SAME float (1e3, 1E3): the mapping then
+                               \* keeps one item; which floats are equal is Python's business
+                               IF \E i, j \in 1..Len(ks) : i # j /\ ks[i].k = "float" /\ ks[j].k = "float" THEN Unsure
+                               ELSE Lift(ks \o xs, DictV([i \in 1..Len(d.v) |-> <<ks[i], xs[i]>>]))
   ELSE ReadScalar(d)
 \* the whole scalar layer: tree -> text -> tree.  ideal = TRUE: every scalar is read back as written.
 ThroughText(fmt, x, ideal) == IF ideal THEN x ELSE ReadDoc(WriteDoc(fmt, x))
@@ -335,7 +338,7 @@ SerOk(t, v) ==
 Ser(t, v, o) ==
   CASE t.c \in {"str", "int", "bool", "none", "literal"} -> v
     [] t.c = "float" -> IF v.k = "int" THEN IntToFloat(v) ELSE v                \* :784-785
-    [] t.c = "enum"  -> IF v.k = "enum" THEN Str(v.v) ELSE v                    \* :809-811  val.name
+    [] t.c = "enum"  -> IF v.k = "enum" /\ \E i \in 1..Len(t.p) : t.p[i] = v.v THEN Str(v.v) ELSE v   \* :809-811  val.name if isinstance(val, typehint), else UNCHANGED
     [] t.c = "union" ->                                                         \* :833-847
          LET ts == SortSubtypes(t.p, v) IN
          IF \E i \in 1..Len(ts) : SerOk(ts[i], v)
@@ -389,16 +392,27 @@ NestedHazards(t, v) ==
          [] OTHER -> {}
 \* --print_config=comments sends the yaml text through a SECOND yaml library (ruyaml, YAML 1.2; _formatters.py:187-191,
 \* add_yaml_comments) which re-decides the quoting of every scalar with its own resolvers: the strings whose reading
-\* depends on the schema (not a str for the stock YAML 1.1 dumper, or a hazard of the loader) may come back changed
+\* depends on the schema (not a str for the stock YAML 1.1 dumper, or a hazard of the loader) may come back changed,
+\* and a float is re-spelled by that library (the last digit of a 17-digit float may change)
 RECURSIVE SchemaDependent(_)
 SchemaDependent(v) ==
   IF v.k \in SeqKinds THEN \E n \in 1..Len(v.v) : SchemaDependent(v.v[n])
   ELSE IF v.k = "dict" THEN \E n \in 1..Len(v.v) : SchemaDependent(v.v[n][1]) \/ SchemaDependent(v.v[n][2])
   ELSE IF v.k = "ns" THEN \E n \in 1..Len(v.v) : SchemaDependent(v.v[n][2])
   ELSE IF v.k \in {"str", "enum"} THEN DumperTag(v.v) # "str" \/ Deviation(v.v) # "none"
+  ELSE v.k = "float"
+\* The serialising Enum branch never raises (:809-811), so the Union loop (:836-839) stops at an Enum member for ANY value:
+\* a member of another Enum (or a tuple / set) behind it stays unserialised and the dumper cannot represent it
+RECURSIVE HasUnserialised(_)
+HasUnserialised(x) ==
+  IF x.k \in {"enum", "set", "ns"} THEN TRUE
+  ELSE IF x.k \in {"list", "tuple"} THEN \E i \in 1..Len(x.v) : HasUnserialised(x.v[i])
+  ELSE IF x.k = "dict" THEN \E i \in 1..Len(x.v) : HasUnserialised(x.v[i][2])
   ELSE FALSE
 LeafHazards(t, v, fmt) ==
-  LET s == SerializeLeaf(t, v, TRUE) IN (IF Bad(s) THEN {} ELSE Hazards(fmt, s)) \cup NestedHazards(t, v)
+  LET s == SerializeLeaf(t, v, TRUE) IN
+  (IF Bad(s) THEN {} ELSE Hazards(fmt, s)) \cup NestedHazards(t, v)
+  \cup (IF ~Bad(s) /\ HasUnserialised(s) THEN {"union-enum-member-serialises-anything"} ELSE {})
 RoundTripModuloKnown(t, v, fmt) == RoundTrip(t, v, fmt) \/ IsUnsure(AlgRT(t, v, fmt)) \/ LeafHazards(t, v, fmt) # {}
 HazardsAreReal(t, v, fmt)       == (LeafHazards(t, v, fmt) # {} /\ ~IsUnsure(AlgRT(t, v, fmt))) => ~RoundTrip(t, v, fmt)
 
@@ -466,7 +480,9 @@ HasPath(tree, p) == HasKey(tree, Str(p[1])) /\ (Len(p) = 1 \/ (GetKey(tree, Str(
 ParseEntries(entries, tree) == [i \in 1..Len(entries) |-> IF HasPath(tree, entries[i].p) THEN AcceptD(entries[i].t, LookupPath(tree, entries[i].p), entries[i].d) ELSE entries[i].d]
 \* _ActionSubCommands.get_subcommands (_actions.py:691-744) on a config without the selector key: the first
 \* sub-command under whose name at least one value arrived; none: error when required, no sub-command otherwise
-SubPresent(shape, tree, n) == HasKey(tree, Str(shape.subs[n][1])) /\ GetKey(tree, Str(shape.subs[n][1])).k = "dict" /\ Len(GetKey(tree, Str(shape.subs[n][1])).v) > 0
+SubPresent(shape, tree, n) ==          \* a Namespace exists under the name only if the value of one of its arguments arrived (an empty group does not count)
+  /\ HasKey(tree, Str(shape.subs[n][1])) /\ GetKey(tree, Str(shape.subs[n][1])).k = "dict"
+  /\ \E i \in 1..Len(shape.subs[n][2]) : HasPath(GetKey(tree, Str(shape.subs[n][1])), shape.subs[n][2][i].p)
 ReparseTree(shape, tree) ==
   LET top == ParseEntries(shape.top, tree)
       sel == IF \E n \in 1..Len(shape.subs) : SubPresent(shape, tree, n)
